@@ -4,6 +4,7 @@ package main
 // CometBFT ValidatorSet maintained from the returned validator updates.
 
 import (
+	"github.com/cosmos/cosmos-sdk/types/module"
 	customgov "github.com/KiraCore/sekai/x/gov"
 	"encoding/json"
 	"fmt"
@@ -434,6 +435,50 @@ func (w *World) ReimportGovInPlace(ctx sdk.Context) (failed interface{}) {
 		if err := customgov.InitGenesis(cc, k, back); err != nil {
 			failed = err
 		}
+	}()
+	if failed == nil {
+		write()
+	}
+	return failed
+}
+
+// ReimportModuleInPlace: what a restart from an exported genesis does to ONE module, on the live store: the module's own
+// ExportGenesis (through JSON, as a genesis file carries it), every key of the module's store deleted, the module's own
+// InitGenesis of the exported state. Needs the verif hook SekaiApp.VerifModuleManager (build tag verif). The other
+// modules' stores stay as they are. Runs on a branch of ctx that is written back only when InitGenesis completes; a
+// panic is returned and leaves ctx untouched. `storeKey` is the name of the module's KV store.
+func (w *World) ReimportModuleInPlace(ctx sdk.Context, moduleName, storeKey string) (failed interface{}) {
+	cc, write := ctx.CacheContext()
+	func() {
+		defer func() {
+			if e := recover(); e != nil {
+				failed = e
+			}
+		}()
+		mm := w.app.VerifModuleManager()
+		mod, ok := mm.Modules[moduleName].(module.HasGenesis)
+		if !ok {
+			failed = fmt.Errorf("module %s has no genesis", moduleName)
+			return
+		}
+		raw := mod.ExportGenesis(cc, w.app.AppCodec())
+		raw = append(json.RawMessage(nil), raw...)
+		key := w.app.GetKey(storeKey)
+		if key == nil {
+			failed = fmt.Errorf("no store %s", storeKey)
+			return
+		}
+		store := cc.KVStore(key)
+		var keys [][]byte
+		it := store.Iterator(nil, nil)
+		for ; it.Valid(); it.Next() {
+			keys = append(keys, append([]byte(nil), it.Key()...))
+		}
+		it.Close()
+		for _, k := range keys {
+			store.Delete(k)
+		}
+		mod.InitGenesis(cc, w.app.AppCodec(), raw)
 	}()
 	if failed == nil {
 		write()
